@@ -63,10 +63,13 @@ are deleted, the rest must be `>= 0` -/
 def psdEig (eigs : List Rat) (atol : Rat) : Bool :=
   eigs.all fun l => isClose l 0 atol mutil_is_psd_eig_rtol || decide (0 ≤ l)
 
-/-- matrix_util.is_positive_semidefinite(matrix, atol); `eigs` = `np.linalg.eigvalsh(matrix)` -/
-def psdVerdict (M : CMat) (eigs : List Rat) (atol : Rat) : Option Bool := do
-  let h ← isHermitian M atol
-  some (h && psdEig eigs atol)
+/-- matrix_util.is_positive_semidefinite(matrix, atol); `eigs` = `np.linalg.eigvalsh(matrix)` (one value per row of the
+matrix: a list of any other length is outside the modelled domain, `none`) -/
+def psdVerdict (M : CMat) (eigs : List Rat) (atol : Rat) : Option Bool :=
+  if eigs.length ≠ M.d then none
+  else do
+    let h ← isHermitian M atol
+    some (h && psdEig eigs atol)
 
 /-! ## State -/
 
@@ -277,6 +280,9 @@ def handle (args : List String) : Option String :=
       | "gate" => some (showList showRat (originGate n))
       | "mprocess" => some (showList showRat (originMp n m).flatten)
       | _ => none
+  | ["zero", n] => do
+      let n ← parseNat? n
+      some (showList showRat (zeroVec n))
   | ["atol0"] => some (showRat settings_atol)
   | _ => none
 
